@@ -16,10 +16,17 @@ def budget(quick, thorough):
 
 def judge(prop: str, rep: core.Report, res: Dict[int, Any], items: Dict[int, Dict[str, Any]],
           nontrivial: Callable[[Dict[str, Any]], bool]):
+    from . import census as cs
     known = {k['id'] for k in core.known_findings(prop)}
+    cen = getattr(rep, 'census', None) or cs.Census()
+    rep.census = cen
+    seen_docs = set()
     for tid, (v, r) in res.items():
         it = items[tid]
         rep.evaluations += 1
+        if not v.startswith('skip:') and id(it['doc']) not in seen_docs:
+            seen_docs.add(id(it['doc']))
+            cen.add(cs.doc_tags(it['doc']))
         if v.startswith('skip:'):
             rep.notes['skipped'] = rep.notes.get('skipped', 0) + 1
             continue
